@@ -6,6 +6,7 @@ CONSTANTS
   Hard = 1
   MaxOps = 4
   MaxPokes = 1
+  AllowBad = FALSE
   AllowOrphan = FALSE
 INIT Init
 NEXT Next
